@@ -100,16 +100,27 @@ Neighbors find_neighbors_covertree_impl(RandomAccessIterator begin, RandomAccess
     assert(end - begin == res.index);
     for (int i = 0; i < res.index; ++i)
     {
-        LocalNeighbors local_neighbors;
-        local_neighbors.reserve(k);
-
-        for (IndexType j = 1; j <= k; ++j) // j=0 is the query point
+        // res[i] holds the query point (j=0) followed, in no particular order, by every point that is
+        // not farther than its k-th closest point (the query included), so there can be more than k
+        // of them when distances tie: keep the k - 1 closest ones other than the query
+        typedef std::pair<RandomAccessIterator, ScalarType> DistanceRecord;
+        std::vector<DistanceRecord> candidates;
+        candidates.reserve(size(res[i]));
+        for (IndexType j = 1; j < size(res[i]); ++j) // j=0 is the query point
         {
             // The actual query point is found as a neighbor, just ignore it
             if (res[i][j].iter_ - begin == res[i][0].iter_ - begin)
                 continue;
-            local_neighbors.push_back(res[i][j].iter_ - begin);
+            candidates.push_back(std::make_pair(res[i][j].iter_, callback.distance(res[i][0].iter_, res[i][j].iter_)));
         }
+        const size_t n_nearest = std::min(candidates.size(), static_cast<size_t>(k - 1));
+        std::partial_sort(candidates.begin(), candidates.begin() + n_nearest, candidates.end(),
+                          distances_comparator<DistanceRecord>());
+
+        LocalNeighbors local_neighbors;
+        local_neighbors.reserve(n_nearest);
+        for (size_t j = 0; j < n_nearest; ++j)
+            local_neighbors.push_back(candidates[j].first - begin);
         neighbors[res[i][0].iter_ - begin] = local_neighbors;
     };
     return neighbors;
